@@ -53,6 +53,14 @@ def _has_id_intersection(parent: 'Task', children: Iterable['Task']):
     return len(parent_tree_ids.intersection(new_task_ids)) > 0
 
 
+def _check_no_links_to_ancestors(subtree_root: 'Task', new_parent: 'Task'):
+    ancestors = [new_parent] + [t for t in new_parent.all_parents]
+    for t in [subtree_root] + [t for t in subtree_root.all_children]:
+        for a in ancestors:
+            if a in t.predecessors or a in t.successors:
+                raise RuntimeError(f"Task {t.id} is linked with task {a.id}. Can't make it a parent")
+
+
 def _check_not_none(obj: Any, name: str):
     if obj is None:
         raise RuntimeError(f"{name} is None")
@@ -732,6 +740,7 @@ class Task:
             if parent is self or parent in self.all_children:
                 raise RuntimeError(f"Task {parent.id} is a child of task {self.id}. Can't make child "
                                    f"a parent of its parent")
+            _check_no_links_to_ancestors(self, parent)
 
         if self.__parent is not None and self in self.__parent.__children:
             self.__parent.__children.remove(self)
@@ -795,6 +804,7 @@ class Task:
         for ch in value:
             if ch is self or self in ch.all_children:
                 raise RuntimeError(f"Task {self.id} is a child of {ch.id}. Can't make child a parent of its parent")
+            _check_no_links_to_ancestors(ch, self)
 
         for v in self.__children:
             v.__parent = None
